@@ -25,6 +25,8 @@ const (
 	BodyIsEmpty        = "the body cannot be empty"
 	MacroIsEmpty       = "the macros cannot be empty, learn more about the MACRO directive here: https://jsight.io/docs/jsight-api-0-3#directive-macro" //nolint:lll
 
+	SchemaNestingIsTooDeep = "the schema is nested too deeply (the limit is 4900 levels of objects and arrays)"
+
 	IncorrectPath             = "incorrect path"
 	IncorrectRequest          = "incorrect request"
 	IncorrectDirectiveContext = "incorrect context for the directive"
